@@ -1194,6 +1194,31 @@ class Rewriter:
             code = code[:mm_fl.start()] + '{ let lines__ = vx::vec_take(%s.vx_lines(), %s); for %s in lines__.iter() ' % (e, n_, v) + code[ob:cb + 1] + ' }' + code[cb + 1:]
             k_ft += 1
         self.note('for x in s.lines().take(n)->for x in vx::vec_take(s.vx_lines(), n).iter()', k_ft)
+        # `TABLE.iter().position(|&c| c == X)` over a table of string literals -> vx::lits_position(&TABLE, X)
+        k_ps = 0
+        while True:
+            m_ps = mask(code)
+            mm_ps = re.search(r'([A-Za-z_][A-Za-z0-9_:]*(?:\(\))?)\s*\.\s*iter\s*\(\s*\)\s*\.\s*position\s*\(\s*\|\s*&\s*([a-z_][a-z0-9_]*)\s*\|\s*\2\s*==\s*([a-z_][a-z0-9_.]*)\s*\)', m_ps)
+            if not mm_ps:
+                break
+            code = code[:mm_ps.start()] + 'vx::lits_position(&%s, (%s).vx_str())' % (mm_ps.group(1), mm_ps.group(3)) + code[mm_ps.end():]
+            k_ps += 1
+        self.note('TABLE.iter().position(|&c| c == x)->vx::lits_position(&TABLE, x)', k_ps)
+        # `for &(A, B) in TABLE {` (rows of a const table of pairs) -> iterate the rows and bind the two components
+        k_tp = 0
+        while True:
+            m_tp = mask(code)
+            mm_tp = re.search(r'(?<![A-Za-z0-9_])for\s+&\s*\(\s*([a-z_][a-z0-9_]*)\s*,\s*([a-z_][a-z0-9_]*)\s*\)\s+in\s+([A-Za-z_][A-Za-z0-9_:]*(?:\(\))?)\s*\{', m_tp)
+            if not mm_tp:
+                break
+            ob = mm_tp.end() - 1
+            cb = match_close(m_tp, ob)
+            a_, b_, e_ = mm_tp.group(1), mm_tp.group(2), mm_tp.group(3)
+            inner = code[ob + 1:cb]
+            rep = '{ let tab__ = %s; for row__ in tab__.iter() { let %s = row__.0; let %s = &row__.1; %s } }' % (e_, a_, b_, inner)
+            code = code[:mm_tp.start()] + rep + code[cb + 1:]
+            k_tp += 1
+        self.note('for &(a, b) in TABLE->for row in TABLE.iter() with the two components bound', k_tp)
         # `for x in &V[A..B] {` -> counter loop over the same index range (the range check of the slice is kept as a call)
         k_sl = 0
         while True:
